@@ -74,6 +74,9 @@ Step == /\ l <= Len(Tr) /\ l' = l + 1 /\ t' = t
              [] e.e = "close" -> /\ sess' = [sess EXCEPT ![e.c] = [k \in Classes |-> 0]]
                                  /\ bad' = IF e.alive # 0 THEN Flag("C09.SessionNotDropped") ELSE bad
                                  /\ UNCHANGED <<single, used, attempts, distinct>>
+             \* a second daemon in the same process registers the same classes: it has no 'single' instance yet
+             [] e.e = "newdaemon" -> /\ single' = [k \in Classes |-> 0]
+                                     /\ UNCHANGED <<sess, used, attempts, distinct, bad>>
              [] e.e = "call"  -> CallStep(e)
              [] e.e = "stats" -> StatsStep(e)
              [] OTHER -> bad' = Flag("Monitor.UnknownEvent") /\ UNCHANGED <<single, sess, used, attempts, distinct>>
